@@ -32,13 +32,14 @@ type c06Doc struct {
 var c06Vals = []string{"", "1", "-2", "0.5", "1e1", "3"}
 
 type c06Case struct {
-	Docs  []c06Doc      `json:"docs"`
-	Part  []int         `json:"part,omitempty"`
-	Query string        `json:"query"`
+	Docs  []c06Doc       `json:"docs"`
+	Part  []int          `json:"part,omitempty"`
+	Query string         `json:"query"`
 	Agg   *refdb.AggSpec `json:"agg,omitempty"`
-	Hist  uint64        `json:"hist,omitempty"`
-	Merge string        `json:"merge,omitempty"`
-	Proxy bool          `json:"proxy,omitempty"`
+	Hist  uint64         `json:"hist,omitempty"`
+	Merge string         `json:"merge,omitempty"`
+	Proxy bool           `json:"proxy,omitempty"`
+	Range int      `json:"range,omitempty"` // 0: full time range, 1 / 2: the ranges that cut the corpus
 }
 
 func c06Docs(ds []c06Doc) []refdb.Doc {
@@ -210,61 +211,71 @@ func runC06Corpus(r *vlib.Run, env *vfrac.Env, ds []c06Doc, only *c06Case) {
 			}
 			fracs = append(fracs, a)
 		}
-		for _, pq := range c06Queries {
-			matching := refdb.Matching(docs, pq.Ref, 0, vfrac.MaxMID)
-			// all aggregation specs in ONE request (multi-agg), plus histogram per interval
-			var aq []processor.AggQuery
-			for _, s := range specs {
-				aq = append(aq, realAggQuery(s))
-			}
-			for _, hi := range hists {
-				if only != nil && only.Hist != 0 && only.Hist != hi {
+		// the full time range, and two ranges that cut the corpus (tokens that occur only outside the range must
+		// not disturb the aggregation of the ones inside)
+		for ri, rg := range [][2]uint64{{0, vfrac.MaxMID}, {vfrac.BaseMID + 1, vfrac.MaxMID}, {0, vfrac.BaseMID + 1}} {
+			for _, pq := range c06Queries {
+				if ri > 0 && only != nil {
 					continue
 				}
-				p := vfrac.Params(pq, 0, vfrac.MaxMID, false, 100, true)
-				p.AggQ = aq
-				p.HistInterval = hi
-				var parts []*seq.QPR
-				failed := false
-				for _, a := range fracs {
-					qpr, err := vfrac.Search(a, p)
-					if err != nil {
-						r.Violation(fmt.Sprintf("search-error docs=%v part=%v q=%s", ds, part, pq.Text), c06Case{Docs: ds, Part: part, Query: pq.Text, Hist: hi}, err.Error())
-						failed = true
-						break
-					}
-					parts = append(parts, qpr)
+				matching := refdb.Matching(docs, pq.Ref, rg[0], rg[1])
+				// all aggregation specs in ONE request (multi-agg), plus histogram per interval
+				var aq []processor.AggQuery
+				for _, s := range specs {
+					aq = append(aq, realAggQuery(s))
 				}
-				if failed {
-					continue
-				}
-				wantHist := canonRefHist(refdb.Histogram(docs, pq.Ref, 0, vfrac.MaxMID, hi))
-				for name, m := range mergeTrees(parts, len(specs), hi) {
-					r.Add("evaluations", 1)
-					if g := canonHist(m.Histogram); g != wantHist {
-						r.Violation(fmt.Sprintf("hist docs=%v part=%v q=%s interval=%d merge=%s", ds, part, pq.Text, hi, name), c06Case{Docs: ds, Part: part, Query: pq.Text, Hist: hi, Merge: name}, fmt.Sprintf("got [%s] want [%s]", g, wantHist))
+				for _, hi := range hists {
+					if only != nil && only.Hist != 0 && only.Hist != hi {
+						continue
 					}
-					if int(m.Total) != len(matching) {
-						r.Violation(fmt.Sprintf("total docs=%v part=%v q=%s merge=%s", ds, part, pq.Text, name), c06Case{Docs: ds, Part: part, Query: pq.Text, Hist: hi, Merge: name}, fmt.Sprintf("total %d want %d", m.Total, len(matching)))
+					if ri > 0 && hi != hists[0] {
+						continue
 					}
-					if hi != hists[0] {
-						continue // aggregations do not depend on the histogram interval: judged once
-					}
-					args := make([]seq.AggregateArgs, len(specs))
-					for i, s := range specs {
-						args[i] = seq.AggregateArgs{Func: c06Funcs[s.Func], Quantiles: s.Quantiles, SkipWithoutTimestamp: s.Interval > 0}
-					}
-					results := m.Aggregate(args)
-					for i, s := range specs {
-						r.Add("evaluations", 1)
-						want := refdb.Aggregate(matching, s).Canon()
-						got := canonRealAgg(results[i])
-						if got != want {
-							sp := s
-							r.Violation(fmt.Sprintf("agg docs=%v part=%v q=%s spec=%s merge=%s", ds, part, pq.Text, vlib.JSON(s), name), c06Case{Docs: ds, Part: part, Query: pq.Text, Agg: &sp, Merge: name}, fmt.Sprintf("got  %s\nwant %s", got, want))
+					p := vfrac.Params(pq, rg[0], rg[1], false, 100, true)
+					p.AggQ = aq
+					p.HistInterval = hi
+					var parts []*seq.QPR
+					failed := false
+					for _, a := range fracs {
+						qpr, err := vfrac.Search(a, p)
+						if err != nil {
+							r.Violation(fmt.Sprintf("search-error docs=%v part=%v q=%s", ds, part, pq.Text), c06Case{Docs: ds, Part: part, Query: pq.Text, Hist: hi}, err.Error())
+							failed = true
+							break
 						}
-						if len(matching) > 0 {
-							r.Add("nontrivial_aggs", 1)
+						parts = append(parts, qpr)
+					}
+					if failed {
+						continue
+					}
+					wantHist := canonRefHist(refdb.Histogram(docs, pq.Ref, rg[0], rg[1], hi))
+					for name, m := range mergeTrees(parts, len(specs), hi) {
+						r.Add("evaluations", 1)
+						if g := canonHist(m.Histogram); g != wantHist {
+							r.Violation(fmt.Sprintf("hist docs=%v part=%v q=%s interval=%d merge=%s", ds, part, pq.Text, hi, name), c06Case{Docs: ds, Part: part, Query: pq.Text, Hist: hi, Merge: name}, fmt.Sprintf("got [%s] want [%s]", g, wantHist))
+						}
+						if int(m.Total) != len(matching) {
+							r.Violation(fmt.Sprintf("total docs=%v part=%v q=%s merge=%s", ds, part, pq.Text, name), c06Case{Docs: ds, Part: part, Query: pq.Text, Hist: hi, Merge: name}, fmt.Sprintf("total %d want %d", m.Total, len(matching)))
+						}
+						if hi != hists[0] {
+							continue // aggregations do not depend on the histogram interval: judged once
+						}
+						args := make([]seq.AggregateArgs, len(specs))
+						for i, s := range specs {
+							args[i] = seq.AggregateArgs{Func: c06Funcs[s.Func], Quantiles: s.Quantiles, SkipWithoutTimestamp: s.Interval > 0}
+						}
+						results := m.Aggregate(args)
+						for i, s := range specs {
+							r.Add("evaluations", 1)
+							want := refdb.Aggregate(matching, s).Canon()
+							got := canonRealAgg(results[i])
+							if got != want {
+								sp := s
+								r.Violation(fmt.Sprintf("agg docs=%v part=%v q=%s range=%d spec=%s merge=%s", ds, part, pq.Text, ri, vlib.JSON(s), name), c06Case{Docs: ds, Part: part, Query: pq.Text, Agg: &sp, Merge: name, Range: ri}, fmt.Sprintf("got  %s\nwant %s", got, want))
+							}
+							if len(matching) > 0 {
+								r.Add("nontrivial_aggs", 1)
+							}
 						}
 					}
 				}
@@ -385,7 +396,7 @@ func TestVerifC06(t *testing.T) {
 	c06QuantileBorder(r)
 	ev := r.Get("evaluations")
 	r.Finish(t, "model_checking",
-		"corpora: every sequence of <=2 docs over group{absent,g1,g2} x value{absent,1,-2,0.5,1e1,3} x 3 timestamps, n=3 over a reduced alphabet (thorough: larger + n=4); every set partition into <=3 fractions; ONE multi-aggregation request with 38 specs (count / sum,min,max,avg / 3 quantile lists, with and without group, interval 0 and 2; unique; count by the numeric field) + histogram intervals {1,2,5}, 2 queries; every merge tree of the per-fraction partial results (all permutations, flat, (ab)c, a(bc), incremental accumulator) judged against values computed by refdb from the documents; a thinned set again through Ingestor.Search over two in-process shards (store<->proxy conversion); 8096/8097-sample quantile border",
+		"corpora: every sequence of <=2 docs over group{absent,g1,g2} x value{absent,1,-2,0.5,1e1,3} x 3 timestamps, n=3 over a reduced alphabet (thorough: larger + n=4); every set partition into <=3 fractions; ONE multi-aggregation request with 38 specs (count / sum,min,max,avg / 3 quantile lists, with and without group, interval 0 and 2; unique; count by the numeric field) + histogram intervals {1,2,5}, 2 queries, over the full time range and over two ranges that cut the corpus; every merge tree of the per-fraction partial results (all permutations, flat, (ab)c, a(bc), incremental accumulator) judged against values computed by refdb from the documents; a thinned set again through Ingestor.Search over two in-process shards (store<->proxy conversion); 8096/8097-sample quantile border",
 		map[string]any{
 			"states":                        r.Get("corpora") + r.Get("proxy_corpora"),
 			"transitions":                   ev,
